@@ -178,7 +178,7 @@ def run(ctx):
     except TL.Refuse as e:
         ctx.obligation("translate_linear", False, f"translator refused: {e}")
         tr_ok = False
-    ok, out = ctx.build(["proofs/LehmannProof.vo", "proofs/ClosureExtra.vo", "proofs/BlockSolver.vo", "model/Blocks.vo", "proofs/GenLinearBridge.vo"]) if tr_ok else (False, "translator refused")
+    ok, out = ctx.build(["proofs/LehmannProof.vo", "proofs/ClosureExtra.vo", "proofs/BlockSolver.vo", "model/Blocks.vo", "proofs/GenLinearBridge.vo", "proofs/NilpotentSolveProofs.vo"]) if tr_ok else (False, "translator refused")
     if ok:
         ctx.prove("props/C15.v")
     else:
